@@ -25,15 +25,20 @@ fn kind_count(tags: &BTreeSet<Tag>) -> usize {
 
 enum Verdict {
     Discard(String),
-    Pass,
+    /// round trip fine; deepest indentation (columns) of the formatted text
+    Pass(usize),
     Known(&'static KnownDef),
     Violation(Failure),
 }
 
 fn judge(x: &str, active: &[&'static KnownDef]) -> (Verdict, BTreeSet<Tag>) {
-    match fmtoracle::roundtrip(x) {
+    judge_with(x, active, None)
+}
+
+fn judge_with(x: &str, active: &[&'static KnownDef], fcfg: Option<&incan::FormatConfig>) -> (Verdict, BTreeSet<Tag>) {
+    match fmtoracle::roundtrip_with(x, fcfg) {
         RoundTrip::NotParsed(why) => (Verdict::Discard(why), BTreeSet::new()),
-        RoundTrip::Ok { a1, .. } => (Verdict::Pass, gsyn::ast_tags(&a1)),
+        RoundTrip::Ok { a1, formatted } => (Verdict::Pass(gsyn::max_indent_columns(&formatted)), gsyn::ast_tags(&a1)),
         RoundTrip::Fail { a1, failure } => {
             let tags = gsyn::ast_tags(&a1);
             match fmtoracle::attribute(&failure, &tags, active) {
@@ -49,8 +54,8 @@ struct Found {
     source: String,
     detail: String,
     origin: String,
-    /// (chunk seed, case index) of a generated case: shrunk lazily, only when the signature is actually reported
-    gen: Option<(u64, usize)>,
+    /// (generator class, chunk seed, case index) of a generated case: shrunk lazily, only when the signature is reported
+    gen: Option<(u8, u64, usize)>,
 }
 
 #[derive(Default)]
@@ -65,6 +70,36 @@ struct ChunkOut {
     samples: Vec<String>,
     unknown_tags: BTreeSet<Tag>,
     normalisation_mattered: u64,
+    /// cases whose formatted text is indented deeper than 32 / 64 columns, and the deepest seen
+    deeper_32: u64,
+    deeper_64: u64,
+    max_indent: usize,
+    longest_line: usize,
+    nondefault_config: u64,
+}
+
+/// Generator classes: 0 ordinary G-syn, 1 deep nesting, 2 long constructs, 3 many declarations.
+const CLASS_NAMES: [&str; 4] = ["gsyn_programs", "stress_deep_nesting", "stress_long_constructs", "stress_many_declarations"];
+
+fn class_strategy(class: u8, cfg: &gsyn::GsynConfig) -> proptest::strategy::BoxedStrategy<gsyn::GProgram> {
+    match class {
+        1 => gsyn::stress::deep(cfg),
+        2 => gsyn::stress::long(cfg),
+        3 => gsyn::stress::many(cfg),
+        _ => gsyn::program_tree(cfg),
+    }
+}
+
+/// Formatter configuration of case `k` (None = default): stress cases rotate through all of them, every 8th ordinary
+/// case uses a non-default one.
+fn case_config(class: u8, k: usize) -> Option<incan::FormatConfig> {
+    if class != 0 {
+        fmtoracle::config(k)
+    } else if k % 8 == 7 {
+        fmtoracle::config(1 + (k / 8) % 5)
+    } else {
+        None
+    }
 }
 
 fn describe(f: &Failure, source: &str) -> String {
@@ -75,9 +110,9 @@ fn describe(f: &Failure, source: &str) -> String {
     s
 }
 
-fn run_chunk(idx: usize, n: usize, seed: u64, cfg: &gsyn::GsynConfig, active: &[&'static KnownDef], all: &BTreeSet<Tag>) -> ChunkOut {
+fn run_chunk(class: u8, idx: usize, n: usize, seed: u64, cfg: &gsyn::GsynConfig, active: &[&'static KnownDef], all: &BTreeSet<Tag>) -> ChunkOut {
     let mut out = ChunkOut::default();
-    let strat = gsyn::program_tree(cfg);
+    let strat = class_strategy(class, cfg);
     let mut runner = vcore::gen::runner(seed);
     let trees = vcore::gen::batch(&strat, &mut runner, n);
     let mut seen_sigs: BTreeSet<String> = BTreeSet::new();
@@ -90,7 +125,7 @@ fn run_chunk(idx: usize, n: usize, seed: u64, cfg: &gsyn::GsynConfig, active: &[
                 Ok(_) => "panic".into(),
             };
             *out.noise.entry(util::truncate(&why, 80)).or_insert(0) += 1;
-            if out.samples.len() < 2 && idx == 0 {
+            if out.samples.len() < 2 && idx == 0 && class == 0 {
                 out.samples.push(format!("NOISE {why}\n{}", p.source));
             }
             continue;
@@ -104,17 +139,30 @@ fn run_chunk(idx: usize, n: usize, seed: u64, cfg: &gsyn::GsynConfig, active: &[
         if kind_count(&p.tags) >= 3 {
             out.nontrivial.push(util::hash_str(&p.source));
         }
-        if idx < 3 && k % 60 == 7 && out.samples.len() < 2 {
+        if idx < 3 && class == 0 && k % 60 == 7 && out.samples.len() < 2 {
             out.samples.push(p.source.clone());
         }
-        match judge(&p.source, active).0 {
-            Verdict::Pass => {}
+        let fcfg = case_config(class, k);
+        if fcfg.is_some() {
+            out.nondefault_config += 1;
+        }
+        out.longest_line = out.longest_line.max(p.source.lines().map(|l| l.len()).max().unwrap_or(0));
+        match judge_with(&p.source, active, fcfg.as_ref()).0 {
+            Verdict::Pass(indent) => {
+                out.max_indent = out.max_indent.max(indent);
+                if indent > 32 {
+                    out.deeper_32 += 1;
+                }
+                if indent > 64 {
+                    out.deeper_64 += 1;
+                }
+            }
             Verdict::Discard(why) => *out.noise.entry(why).or_insert(0) += 1,
             Verdict::Known(d) => *out.known_leaks.entry(d.key).or_insert(0) += 1,
             Verdict::Violation(f) => {
                 out.violations += 1;
                 if seen_sigs.insert(f.sig.clone()) {
-                    out.found.push(Found { sig: f.sig.clone(), detail: describe(&f, &p.source), source: p.source.clone(), origin: format!("gsyn chunk {idx} case {k}"), gen: Some((seed, k)) });
+                    out.found.push(Found { sig: f.sig.clone(), detail: describe(&f, &p.source), source: p.source.clone(), origin: format!("{} chunk {idx} case {k} (format config #{})", CLASS_NAMES[class as usize], if fcfg.is_some() { "non-default" } else { "default" }), gen: Some((class, seed, k)) });
                 }
             }
         }
@@ -142,8 +190,24 @@ fn judge_file(name: &str, text: &str, active: &[&'static KnownDef]) -> FileOut {
             fo.discard = Some(why);
             return fo;
         }
-        Verdict::Pass => {
+        Verdict::Pass(_) => {
             fo.passed = true;
+            // the same file under every non-default formatter configuration
+            for i in 1..6 {
+                let c = fmtoracle::config(i);
+                match judge_with(text, active, c.as_ref()).0 {
+                    Verdict::Violation(f) => {
+                        fo.passed = false;
+                        let sig = f.sig.clone();
+                        fo.found.push(Found { sig, detail: describe(&f, text), source: text.to_string(), origin: format!("whole file {name} under format config {c:?}"), gen: None });
+                        break;
+                    }
+                    Verdict::Known(d) => {
+                        fo.known.insert(d.key);
+                    }
+                    _ => {}
+                }
+            }
             return fo;
         }
         Verdict::Known(d) => (Some(d), None),
@@ -166,7 +230,7 @@ fn judge_file(name: &str, text: &str, active: &[&'static KnownDef]) -> FileOut {
         fo.decls_judged += 1;
         match judge(&part, active).0 {
             Verdict::Discard(_) => slices_ok = false,
-            Verdict::Pass => {}
+            Verdict::Pass(_) => {}
             Verdict::Known(k) => {
                 any_part_failed = true;
                 fo.known.insert(k.key);
@@ -240,17 +304,18 @@ fn doc_blocks() -> Vec<(String, String)> {
 }
 
 /// Regenerate the chunk deterministically and shrink case `k` while it keeps failing with the same signature.
-fn shrink_generated(seed: u64, k: usize, sig: &str, cfg: &gsyn::GsynConfig, active: &[&'static KnownDef]) -> Option<(String, Failure)> {
-    let strat = gsyn::program_tree(cfg);
+fn shrink_generated(class: u8, seed: u64, k: usize, sig: &str, cfg: &gsyn::GsynConfig, active: &[&'static KnownDef]) -> Option<(String, Failure)> {
+    let strat = class_strategy(class, cfg);
+    let fcfg = case_config(class, k);
     let mut runner = vcore::gen::runner(seed);
     let mut trees = vcore::gen::batch(&strat, &mut runner, k + 1);
     let tree = trees.last_mut()?;
     let small = vcore::gen::shrink(tree, 800, |t| {
         let q = gsyn::render(t);
-        q.parsed && matches!(judge(&q.source, active).0, Verdict::Violation(ref g) if g.sig == sig)
+        q.parsed && matches!(judge_with(&q.source, active, fcfg.as_ref()).0, Verdict::Violation(ref g) if g.sig == sig)
     });
     let q = gsyn::render(&small);
-    match judge(&q.source, active).0 {
+    match judge_with(&q.source, active, fcfg.as_ref()).0 {
         Verdict::Violation(g) if g.sig == sig => Some((q.source, g)),
         _ => None,
     }
@@ -261,9 +326,13 @@ fn report(out: &mut Outcome, ev: &mut Evidence, f: &Found, cfg: &gsyn::GsynConfi
         ev.violations += 1;
         return;
     }
-    if let Some((seed, k)) = f.gen {
-        if let Some((source, g)) = shrink_generated(seed, k, &f.sig, cfg, active) {
-            out.violation(ev, &f.sig, "incn", &source, &format!("origin: {} (shrunk)\n{}", f.origin, describe(&g, &source)));
+    if let Some((class, seed, k)) = f.gen {
+        if let Some((source, g)) = shrink_generated(class, seed, k, &f.sig, cfg, active) {
+            let note = match case_config(class, k) {
+                Some(c) => format!("\nNOTE: failed under format_source_with_config({c:?}); --replay judges with the default configuration and all configurations of fmtoracle::config"),
+                None => String::new(),
+            };
+            out.violation(ev, &f.sig, "incn", &source, &format!("origin: {} (shrunk){note}\n{}", f.origin, describe(&g, &source)));
             return;
         }
     }
@@ -351,13 +420,33 @@ fn main() {
     let n_gen = args.flag("gen").and_then(|s| s.parse().ok()).unwrap_or(args.tier.pick(30_000usize, 600_000usize));
     let chunk = 250usize;
     let n_chunks = n_gen.div_ceil(chunk);
-    let seeds: Vec<u64> = (0..n_chunks).map(|i| args.subseed(1000 + i as u64)).collect();
-    let results: Vec<ChunkOut> = seeds.par_iter().enumerate().map(|(i, s)| run_chunk(i, chunk, *s, &cfg, &active, &all)).collect();
+    // (class, chunk index within class, cases, seed): ordinary programs + a fixed share of size/depth stress cases
+    let scale = args.tier.pick(1usize, 20usize);
+    let mut plan: Vec<(u8, usize, usize, u64)> = (0..n_chunks).map(|i| (0u8, i, chunk, args.subseed(1000 + i as u64))).collect();
+    if args.flag("no-stress").is_none() {
+        for i in 0..5 * scale {
+            plan.push((1, i, 200, args.subseed(500_000 + i as u64)));
+        }
+        for i in 0..3 * scale {
+            plan.push((2, i, 200, args.subseed(600_000 + i as u64)));
+        }
+        for i in 0..2 * scale {
+            plan.push((3, i, 30, args.subseed(700_000 + i as u64)));
+        }
+    }
+    let results: Vec<ChunkOut> = plan.par_iter().map(|(class, i, n, s)| run_chunk(*class, *i, *n, *s, &cfg, &active, &all)).collect();
+    let (mut deeper_32, mut deeper_64, mut max_indent, mut longest_line, mut nondefault) = (0u64, 0u64, 0usize, 0usize, 0u64);
     let mut tag_counts: BTreeMap<Tag, u64> = BTreeMap::new();
     let mut noise: BTreeMap<String, u64> = BTreeMap::new();
     let (mut generated, mut noise_n) = (0u64, 0u64);
     let mut unknown_tags: BTreeSet<Tag> = BTreeSet::new();
-    for r in &results {
+    for (r, (class, ..)) in results.iter().zip(plan.iter()) {
+        ev.class_n(CLASS_NAMES[*class as usize], r.cases);
+        deeper_32 += r.deeper_32;
+        deeper_64 += r.deeper_64;
+        max_indent = max_indent.max(r.max_indent);
+        longest_line = longest_line.max(r.longest_line);
+        nondefault += r.nondefault_config;
         generated += r.cases;
         for h in &r.nontrivial {
             ev.nontrivial(*h);
@@ -383,7 +472,12 @@ fn main() {
             report(&mut out, &mut ev, f, &cfg, &active);
         }
     }
-    ev.class_n("gsyn_programs", generated);
+    ev.set(
+        "size_and_depth",
+        json!({"formatted_indent_deeper_than_32_columns": deeper_32, "formatted_indent_deeper_than_64_columns": deeper_64,
+               "deepest_formatted_indent_columns": max_indent, "longest_input_line_bytes": longest_line,
+               "cases_with_non_default_format_config": nondefault}),
+    );
     for _ in 0..noise_n {
         ev.discard("generator noise: text does not parse");
     }
